@@ -113,6 +113,14 @@ func (e *SpecEnv) lookupName(name string) (Val, bool) {
 			}
 		}
 	}
+	if e.loop != nil && fr != nil {
+		// inside a loop a reassigned parameter means its current value (p0 is the entry value)
+		if _, isParam := e.vars[name]; isParam {
+			if v, ok := e.debugLookup(name); ok {
+				return v, true
+			}
+		}
+	}
 	if v, ok := e.vars[name]; ok {
 		return v, true
 	}
@@ -619,6 +627,14 @@ func (e *SpecEnv) evalCall(n ECall) Val {
 			return sortedVal(sig.res, n.Fn)
 		}
 		return sortedVal(sig.res, sx(n.Fn, ts...))
+	}
+	if strings.HasPrefix(n.Fn, "k_") {
+		// abstract content kernels (Int^n -> Int), shared with the trusted models
+		var ts []string
+		for _, a := range n.Args {
+			ts = append(ts, e.eval(a).C[0])
+		}
+		return specInt(sx(x.ufn(n.Fn, len(ts)), ts...))
 	}
 	e.fail("unknown function %s", n.Fn)
 	return Val{}
